@@ -295,7 +295,7 @@ Proof.
   - left. lia.
 Qed.
 
-Lemma offset_grid_sweep : offset_grid_ok = true.
+Lemma offset_grid_sweep : forallb offset_pair_ok (z_range (-32768) 65536) = true.
 Proof. vm_cast_no_check (eq_refl true). Qed.
 
 Lemma forallb_range : forall (f : Z -> bool) p lo, forallb f (z_range lo p) = true ->
@@ -309,9 +309,8 @@ Lemma offset_case_sweep : forall off neg, -32768 <= off <= 32767 -> offset_case_
 Proof.
   intros off neg R.
   assert (Hr : -32768 <= off < -32768 + Zpos 65536) by lia.
-  pose proof (forallb_range (fun off => offset_case_ok off false && offset_case_ok off true)
-                65536%positive (-32768) offset_grid_sweep off Hr) as G.
-  cbv beta in G. apply andb_true_iff in G. destruct G as [G1 G2]. destruct neg; assumption.
+  pose proof (forallb_range offset_pair_ok 65536%positive (-32768) offset_grid_sweep off Hr) as G.
+  unfold offset_pair_ok in G. apply andb_true_iff in G. destruct G as [G1 G2]. destruct neg; assumption.
 Qed.
 
 Theorem offset_roundtrip_sweep : forall t off neg, -32768 <= off <= 32767 ->
@@ -344,4 +343,313 @@ Proof.
         apply Z.eqb_eq in B1. split; assumption.
       * intros [-> ->]. cbn [Z.eqb andb] in B. apply beqb_eq. exact B.
     + split; [assumption|]. apply Nat.leb_le. assumption.
+Qed.
+
+(* ------------------------------------------------------------------ aware datetimes *)
+Lemma wall_ok_iff : forall w, wall_ok w = true <-> DT_MIN_US <= w <= DT_MAX_US.
+Proof.
+  intro w. unfold wall_ok. rewrite andb_true_iff, Z.leb_le, Z.leb_le. reflexivity.
+Qed.
+
+Lemma dt_valid_iff : forall d, dt_valid d = true <->
+  -86400 < off_s d < 86400 /\ DT_MIN_US <= dt_local_us d <= DT_MAX_US.
+Proof.
+  intro d. unfold dt_valid. rewrite !andb_true_iff, !Z.ltb_lt, wall_ok_iff. tauto.
+Qed.
+
+Lemma minute_offset_16bit : forall o, -86400 < o < 86400 -> -32768 <= o / 60 <= 32767.
+Proof.
+  intros o H. pose proof (Z.div_mod o 60). pose proof (Z.mod_pos_bound o 60). lia.
+Qed.
+
+(* from_datetime on any valid aware datetime whose instant is in the accepted
+   range: floor seconds, kept microseconds, floor-minute offset, never "-0000" *)
+Lemma from_datetime_ok : forall e o,
+  -86400 < o < 86400 -> secs_in_range (e / MILLION) ->
+  let x := mkTstz (mkTs (e / MILLION) (e mod MILLION)) (offset_to_bytes (o / 60) false) in
+  from_datetime (mkDt e o) = Ok x /\ offset_minutes x = Ok (o / 60).
+Proof.
+  intros e o Ho Hs x. destruct tables as [T1 [T2 [T3 [T4 T5]]]].
+  unfold secs_in_range in Hs. change MILLION with 1000000 in *.
+  pose proof (Z.div_mod e 1000000 ltac:(lia)) as DM. pose proof (Z.mod_pos_bound e 1000000 ltac:(lia)) as MB.
+  unfold from_datetime. cbn [off_s epoch_us]. unfold astimezone_utc. cbn [epoch_us].
+  assert (W : wall_ok e = true) by (apply wall_ok_iff; lia).
+  rewrite W. cbn [bind]. unfold dt_microsecond, dt_local_us. cbn [epoch_us off_s].
+  change MILLION with 1000000. rewrite Z.mul_0_l, Z.add_0_r.
+  assert (U : us_in_range (e mod 1000000)) by (unfold us_in_range; lia).
+  pose proof (minute_offset_16bit o Ho) as R16.
+  pose proof (parse_offset_to_bytes (o / 60) false R16 ltac:(discriminate)) as P.
+  assert (Fin : forall u', dt_timestamp_int u' = e / 1000000 ->
+            bind (mk_timestamp (VInt (dt_timestamp_int u')) (VInt (e mod 1000000)))
+                 (fun t => from_numeric_offset t (o / 60) false) = Ok x).
+  { intros u' Hu'. rewrite Hu'. rewrite (mk_timestamp_ok _ _ Hs U). cbn [bind].
+    unfold from_numeric_offset, offset_minutes. cbv zeta. cbn [offset_bytes]. rewrite P. cbn [bind].
+    rewrite Z.eqb_refl. reflexivity. }
+  split.
+  - destruct (Z.eqb_spec (e mod 1000000) 0) as [Z0|NZ]; cbn [bind].
+    + apply Fin. reflexivity.
+    + unfold replace_microsecond. change MILLION with 1000000. cbn [Z.leb Z.ltb Z.compare andb bind].
+      apply Fin. unfold dt_timestamp_int, dt_microsecond, dt_local_us. cbn [epoch_us off_s].
+      change MILLION with 1000000. rewrite Z.mul_0_l, !Z.add_0_r.
+      replace (e - e mod 1000000) with (e / 1000000 * 1000000) by lia.
+      apply Z.div_mul. lia.
+  - unfold offset_minutes, x. cbn [offset_bytes]. exact P.
+Qed.
+
+(* to_datetime of what from_datetime produced, for a whole-minute offset *)
+Lemma to_datetime_back : forall e m ob,
+  -1440 < m < 1440 -> secs_in_range (e / MILLION) ->
+  DT_MIN_US <= e + m * 60 * MILLION <= DT_MAX_US ->
+  parse_offset_bytes ob = Ok m ->
+  to_datetime (mkTstz (mkTs (e / MILLION) (e mod MILLION)) ob) = Ok (mkDt e (m * 60)).
+Proof.
+  intros e m ob Hm Hs Hw P. destruct tables as [T1 [T2 [T3 [T4 T5]]]].
+  unfold secs_in_range in Hs. change MILLION with 1000000 in *.
+  pose proof (Z.div_mod e 1000000 ltac:(lia)) as DM. pose proof (Z.mod_pos_bound e 1000000 ltac:(lia)) as MB.
+  unfold to_datetime, offset_minutes. cbn [offset_bytes ts seconds microseconds]. rewrite P. cbn [bind].
+  assert (G : (-1440 <? m) && (m <? 1440) = true) by (apply andb_true_iff; split; apply Z.ltb_lt; lia).
+  rewrite G. unfold fromtimestamp. change MILLION with 1000000.
+  set (s := e / 1000000) in *. set (u := e mod 1000000) in *.
+  assert (W1 : wall_ok (s * 1000000) = true) by (apply wall_ok_iff; lia).
+  assert (W2 : wall_ok (s * 1000000 + m * 60 * 1000000) = true).
+  { apply wall_ok_iff. unfold DT_MIN_US, DT_MAX_US in *. change MILLION with 1000000 in *. lia. }
+  rewrite W1, W2. cbn [negb bind]. unfold replace_microsecond. change MILLION with 1000000.
+  assert (G2 : (0 <=? u) && (u <? 1000000) = true) by (apply andb_true_iff; split; [apply Z.leb_le | apply Z.ltb_lt]; lia).
+  rewrite G2. unfold dt_microsecond, dt_local_us. cbn [epoch_us off_s]. change MILLION with 1000000.
+  replace (s * 1000000 + m * 60 * 1000000) with ((s + m * 60) * 1000000) by lia.
+  rewrite Z.mod_mul by lia. f_equal. f_equal. lia.
+Qed.
+
+Theorem datetime_roundtrip : forall e m,
+  let d := mkDt e (m * 60) in
+  dt_valid d = true -> secs_in_range (e / MILLION) ->
+  exists x, from_datetime d = Ok x /\
+    seconds (ts x) = e / MILLION /\ microseconds (ts x) = e mod MILLION /\
+    MILLION * seconds (ts x) <= e < MILLION * (seconds (ts x) + 1) /\
+    0 <= microseconds (ts x) < MILLION /\
+    e = MILLION * seconds (ts x) + microseconds (ts x) /\
+    offset_minutes x = Ok m /\
+    offset_bytes x <> OB_MINUS0000 /\
+    to_datetime x = Ok d.
+Proof.
+  intros e m d V Hs. subst d. apply dt_valid_iff in V. cbn [off_s] in V. destruct V as [Vo Vw].
+  unfold dt_local_us in Vw. cbn [epoch_us off_s] in Vw.
+  destruct (from_datetime_ok e (m * 60) Vo Hs) as [F OM]. cbv zeta in F, OM.
+  rewrite Z.div_mul in F, OM by lia.
+  eexists. split; [exact F|]. cbn [ts seconds microseconds offset_bytes].
+  change MILLION with 1000000 in *.
+  pose proof (Z.div_mod e 1000000 ltac:(lia)) as DM. pose proof (Z.mod_pos_bound e 1000000 ltac:(lia)) as MB.
+  split; [reflexivity|]. split; [reflexivity|]. split; [lia|]. split; [lia|]. split; [lia|].
+  split; [exact OM|]. split.
+  - intro E. apply offset_to_bytes_minus_zero in E. destruct E as [_ E]. discriminate E.
+  - apply to_datetime_back; [lia | exact Hs | change MILLION with 1000000; lia | exact OM].
+Qed.
+
+(* any whole-second offset: the instant is never changed; the offset is floored to minutes *)
+Theorem datetime_instant_kept : forall e o,
+  let d := mkDt e o in
+  dt_valid d = true -> secs_in_range (e / MILLION) ->
+  exists x, from_datetime d = Ok x /\
+    seconds (ts x) = e / MILLION /\ microseconds (ts x) = e mod MILLION /\
+    offset_minutes x = Ok (o / 60) /\
+    forall d', to_datetime x = Ok d' -> epoch_us d' = e /\ (-1440 < o / 60 -> off_s d' = o / 60 * 60).
+Proof.
+  intros e o d V Hs. subst d. apply dt_valid_iff in V. cbn [off_s] in V. destruct V as [Vo Vw].
+  destruct (from_datetime_ok e o Vo Hs) as [F OM]. cbv zeta in F, OM.
+  eexists. split; [exact F|]. cbn [ts seconds microseconds].
+  split; [reflexivity|]. split; [reflexivity|]. split; [exact OM|].
+  intros d' T. unfold to_datetime in T. rewrite OM in T. cbn [bind ts seconds microseconds] in T.
+  assert (R : o / 60 < 1440).
+  { pose proof (Z.div_mod o 60). pose proof (Z.mod_pos_bound o 60). lia. }
+  set (tz := if (-1440 <? o / 60) && (o / 60 <? 1440) then o / 60 * 60 else 0) in T.
+  assert (TZ : -1440 < o / 60 -> tz = o / 60 * 60).
+  { intro L. unfold tz. apply Z.ltb_lt in L. apply Z.ltb_lt in R. rewrite L, R. reflexivity. }
+  unfold fromtimestamp in T.
+  destruct (wall_ok (e / MILLION * MILLION)); cbn [negb] in T; [|discriminate].
+  destruct (wall_ok (e / MILLION * MILLION + tz * MILLION)); cbn [negb bind] in T; [|discriminate].
+  unfold replace_microsecond in T.
+  destruct ((0 <=? e mod MILLION) && (e mod MILLION <? MILLION)); [|discriminate].
+  inversion T. cbn [epoch_us off_s]. unfold dt_microsecond, dt_local_us. cbn [epoch_us off_s].
+  change MILLION with 1000000.
+  replace (e / 1000000 * 1000000 + tz * 1000000) with ((e / 1000000 + tz) * 1000000) by lia.
+  rewrite Z.mod_mul by lia.
+  pose proof (Z.div_mod e 1000000 ltac:(lia)). split; [lia | exact TZ].
+Qed.
+
+(* from_iso8601: "-0000" exactly when the parsed zone is named "-00:00" *)
+Theorem iso8601_minus_zero : forall e flag,
+  let d := mkDt e 0 in
+  dt_valid d = true -> secs_in_range (e / MILLION) ->
+  exists x, from_iso8601_parsed d flag = Ok x /\
+    seconds (ts x) = e / MILLION /\ microseconds (ts x) = e mod MILLION /\
+    offset_minutes x = Ok 0 /\
+    (offset_bytes x = OB_MINUS0000 <-> flag = true) /\
+    (flag = false -> offset_bytes x = OB_PLUS0000).
+Proof.
+  intros e flag d V Hs. subst d. apply dt_valid_iff in V. cbn [off_s] in V. destruct V as [Vo Vw].
+  destruct (from_datetime_ok e 0 Vo Hs) as [F OM]. cbv zeta in F, OM.
+  change (0 / 60) with 0 in F, OM.
+  change (offset_to_bytes 0 false) with OB_PLUS0000 in F, OM.
+  unfold from_iso8601_parsed. rewrite F. cbn [bind offset_bytes ts].
+  destruct flag.
+  - change (beqb OB_PLUS0000 OB_PLUS0000) with true. cbv iota.
+    eexists. split; [reflexivity|]. cbn [ts seconds microseconds offset_bytes].
+    split; [reflexivity|]. split; [reflexivity|]. split; [reflexivity|]. split; [tauto | discriminate].
+  - eexists. split; [reflexivity|]. cbn [ts seconds microseconds offset_bytes].
+    split; [reflexivity|]. split; [reflexivity|]. split; [exact OM|]. split; [|reflexivity].
+    split; [discriminate | discriminate].
+Qed.
+
+(* ------------------------------------------------------------------ verbatim offset bytes, from_dict *)
+Lemma timestamp_of_repr_wf : forall r t, timestamp_of_repr r = Ok t -> ts_wf t.
+Proof.
+  intros r t H. unfold timestamp_of_repr in H.
+  destruct r as [[s us|v|]|]; try discriminate; eapply mk_timestamp_wf; exact H.
+Qed.
+
+Theorem offset_verbatim : forall t ob x,
+  from_dict (TRDictNew t (Some ob)) = Ok x ->
+  offset_bytes x = ob /\ timestamp_of_repr t = Ok (ts x) /\
+  author_date_part x = [SP] ++ format_date (ts x) ++ [SP] ++ ob.
+Proof.
+  intros t ob x H. cbn [from_dict] in H.
+  destruct (timestamp_of_repr t) as [t'|e]; cbn [bind] in H; [|discriminate].
+  inversion H. cbn [offset_bytes ts]. unfold author_date_part. cbn [offset_bytes ts].
+  repeat split; reflexivity.
+Qed.
+
+(* every entry point only ever yields in-range timestamps *)
+Theorem from_dict_wf : forall r x, from_dict r = Ok x -> ts_wf (ts x).
+Proof.
+  intros r x H. destruct r as [t ob|t off neg|d| |v|]; cbn [from_dict] in H; try discriminate.
+  - destruct (timestamp_of_repr t) as [t'|e] eqn:E; cbn [bind] in H; [|discriminate].
+    destruct ob; [|discriminate]. inversion H. cbn [ts]. eapply timestamp_of_repr_wf; exact E.
+  - destruct (timestamp_of_repr t) as [t'|e] eqn:E; cbn [bind] in H; [|discriminate].
+    destruct off as [off|]; [|discriminate].
+    rewrite (from_numeric_offset_bytes _ _ _ _ H). cbn [ts]. eapply timestamp_of_repr_wf; exact E.
+  - unfold from_datetime in H.
+    destruct (astimezone_utc d) as [u|e]; cbn [bind] in H; [|discriminate].
+    destruct (if dt_microsecond u =? 0 then Ok u else replace_microsecond u 0) as [u'|e]; cbn [bind] in H; [|discriminate].
+    destruct (mk_timestamp _ _) as [t'|e] eqn:E; cbn [bind] in H; [|discriminate].
+    rewrite (from_numeric_offset_bytes _ _ _ _ H). cbn [ts]. eapply mk_timestamp_wf; exact E.
+  - destruct (mk_timestamp v (VInt 0)) as [t'|e] eqn:E; cbn [bind] in H; [|discriminate].
+    inversion H. cbn [ts]. eapply mk_timestamp_wf; exact E.
+Qed.
+
+Theorem range_rejected :
+  (forall s us, secs_in_range s -> us_in_range us -> mk_timestamp (VInt s) (VInt us) = Ok (mkTs s us)) /\
+  (forall s us, ~ secs_in_range s -> mk_timestamp (VInt s) us = Err ETimestampOverflow) /\
+  (forall s us, secs_in_range s -> ~ us_in_range us -> mk_timestamp (VInt s) (VInt us) = Err EValue) /\
+  (forall s us, (forall z, s <> VInt z) -> mk_timestamp s us = Err EAttributeType) /\
+  (forall s us, secs_in_range s -> (forall z, us <> VInt z) -> mk_timestamp (VInt s) us = Err EAttributeType) /\
+  (forall s us t, mk_timestamp s us = Ok t ->
+     exists zs zu, s = VInt zs /\ us = VInt zu /\ secs_in_range zs /\ us_in_range zu /\ t = mkTs zs zu) /\
+  (forall r x, from_dict r = Ok x -> secs_in_range (seconds (ts x)) /\ us_in_range (microseconds (ts x))) /\
+  (forall z, us_in_range z <-> 0 <= z < 1000000).
+Proof.
+  split; [exact mk_timestamp_ok|]. split.
+  { intros s us H. unfold mk_timestamp. rewrite (check_seconds_bad s H). reflexivity. }
+  split.
+  { intros s us Hs Hu. unfold mk_timestamp. rewrite (check_seconds_ok s Hs). cbn [bind].
+    rewrite (check_microseconds_bad us Hu). reflexivity. }
+  split.
+  { intros s us H. destruct s as [z| |]; [exfalso; exact (H z eq_refl) | reflexivity | reflexivity]. }
+  split.
+  { intros s us Hs H. unfold mk_timestamp. rewrite (check_seconds_ok s Hs). cbn [bind].
+    destruct us as [z| |]; [exfalso; exact (H z eq_refl) | reflexivity | reflexivity]. }
+  split; [exact mk_timestamp_inv|]. split; [exact from_dict_wf|].
+  intro z. destruct tables as [_ [_ [T3 [T4 _]]]]. unfold us_in_range. rewrite T3, T4. lia.
+Qed.
+
+(* ------------------------------------------------------------------ format_date *)
+Lemma last_In : forall (l : bytes) d, l <> [] -> In (last l d) l.
+Proof.
+  induction l as [|x l IH]; intros d H; [congruence|].
+  destruct l as [|y l']; [left; reflexivity|]. right.
+  change (last (x :: y :: l') d) with (last (y :: l') d). apply IH. discriminate.
+Qed.
+
+Lemma last_app_r : forall (a b : bytes) d, b <> [] -> last (a ++ b) d = last b d.
+Proof.
+  induction a as [|x a IH]; intros b d H; [reflexivity|].
+  cbn [List.app]. destruct (a ++ b) eqn:E.
+  - apply app_eq_nil in E. destruct E as [_ E]. congruence.
+  - rewrite <- E. change (last (x :: a ++ b) d) with (match a ++ b with [] => x | _ => last (a ++ b) d end).
+    rewrite E. rewrite <- E. apply IH. exact H.
+Qed.
+
+Lemma dec_Z_nonempty : forall z, dec_Z z <> [].
+Proof. intros [|p|p]; unfold dec_Z; try apply dec_N_nonempty. discriminate. Qed.
+
+Lemma dot_not_in_dec_Z : forall z, ~ In DOT (dec_Z z).
+Proof. intro z. apply dec_Z_no; [reflexivity | discriminate]. Qed.
+
+Theorem format_date_exact : forall s us, 0 <= us < 1000000 ->
+  let txt := format_date (mkTs s us) in
+  parse_date txt = Some (s, us) /\
+  (us = 0 -> txt = dec_Z s) /\
+  (us <> 0 -> exists frac,
+      txt = dec_Z s ++ [DOT] ++ frac /\ frac <> [] /\ forallb is_digit frac = true /\
+      last frac 0%N <> ZERO /\
+      length (dec_pad 6 (Z.to_N us)) = 6%nat /\
+      exists k, frac ++ repeat ZERO k = dec_pad 6 (Z.to_N us)) /\
+  last txt 0%N <> DOT.
+Proof.
+  intros s us Hu txt. unfold txt, format_date. cbn [microseconds seconds].
+  destruct (Z.eqb_spec us 0) as [->|NZ].
+  - (* whole second *)
+    split; [|split; [reflexivity|split; [congruence|]]].
+    + unfold parse_date. rewrite (cut_none DOT (dec_Z s) (dot_not_in_dec_Z s)).
+      rewrite parse_dec_Z_dec_Z. reflexivity.
+    + intro E. apply (dot_not_in_dec_Z s). rewrite <- E. apply last_In. apply dec_Z_nonempty.
+  - (* fraction *)
+    assert (Hpos : 0 < us) by lia.
+    assert (F : fmt_06d us = dec_pad 6 (Z.to_N us)) by (destruct us; [lia | reflexivity | lia]).
+    rewrite F. set (n := Z.to_N us). set (P := dec_pad 6 n).
+    assert (Hn : (n <> 0)%N) by (unfold n; lia).
+    assert (Hn6 : (n < 10 ^ N.of_nat 6)%N) by (change (10 ^ N.of_nat 6)%N with 1000000%N; unfold n; lia).
+    assert (LP : length P = 6%nat) by (apply dec_pad_length; [lia | exact Hn6]).
+    assert (DP : forallb is_digit P = true) by apply dec_pad_digits.
+    assert (VP : dval P = n) by apply dval_dec_pad.
+    assert (KP : rstrip0 P <> []).
+    { intro E. apply rstrip0_nil_dval in E. rewrite VP in E. exact (Hn E). }
+    assert (TXT : rstrip0 (dec_Z s ++ [DOT] ++ P) = dec_Z s ++ [DOT] ++ rstrip0 P).
+    { rewrite !app_assoc. apply rstrip0_app_keep. exact KP. }
+    rewrite TXT. set (frac := rstrip0 P) in *.
+    assert (DF : forallb is_digit frac = true) by (apply rstrip0_digits; exact DP).
+    assert (LF : (length frac <= 6)%nat) by (rewrite <- LP; apply rstrip0_length).
+    split; [|split; [intro; congruence|split]].
+    + unfold parse_date. cbn [List.app].
+      rewrite (cut_app DOT (dec_Z s) frac (dot_not_in_dec_Z s)).
+      rewrite parse_dec_Z_dec_Z, (parse_dec_N_dval frac KP DF).
+      destruct (Nat.leb_spec (length frac) 6) as [_|Bad]; [|lia].
+      f_equal. f_equal.
+      pose proof (rstrip0_dval P) as RV. fold frac in RV. rewrite VP, LP in RV.
+      unfold n in RV. apply (f_equal Z.of_N) in RV. rewrite Z2N.id in RV by lia.
+      rewrite RV, N2Z.inj_mul, N2Z.inj_pow, nat_N_Z. reflexivity.
+    + intros _. exists frac. split; [reflexivity|]. split; [exact KP|]. split; [exact DF|].
+      split; [apply rstrip0_last; exact KP|]. split; [exact LP|].
+      destruct (rstrip0_spec P) as [k E]. exists k. symmetry. exact E.
+    + rewrite app_assoc, last_app_r by exact KP.
+      intro E. pose proof (last_In frac 0%N KP) as I. rewrite E in I.
+      rewrite forallb_forall in DF. specialize (DF DOT I). discriminate DF.
+Qed.
+
+(* ------------------------------------------------------------------ non-vacuity *)
+Theorem satisfiable :
+  (* a datetime before the epoch, with microseconds and a half-hour offset, meets the hypotheses of the round trip *)
+  (let e := -1500000 in let m := 330 in
+   dt_valid (mkDt e (m * 60)) = true /\ secs_in_range (e / MILLION) /\
+   from_datetime (mkDt e (m * 60)) = Ok (mkTstz (mkTs (-2) 500000) [43; 48; 53; 51; 48]%N)) /\
+  (* offsets in range, with and without the flag *)
+  (-32768 <= -32768 <= 32767 /\ from_numeric_offset (mkTs 0 0) (-32768) true = Ok (mkTstz (mkTs 0 0) [45; 53; 52; 54; 48; 56]%N)) /\
+  from_numeric_offset (mkTs 0 0) 0 true = Ok (mkTstz (mkTs 0 0) OB_MINUS0000) /\
+  (* a date text with stripped zeros *)
+  format_date (mkTs (-5) 120000) = [45; 53; 46; 49; 50]%N /\
+  (* both ends of the accepted range are accepted, the neighbours are not *)
+  secs_in_range TS_MIN_SECONDS /\ secs_in_range TS_MAX_SECONDS /\
+  ~ secs_in_range (TS_MIN_SECONDS - 1) /\ ~ secs_in_range (TS_MAX_SECONDS + 1).
+Proof.
+  destruct tables as [_ [_ [_ [_ T5]]]].
+  repeat split; try (vm_compute; reflexivity); try (vm_compute; discriminate); unfold secs_in_range; lia.
 Qed.
